@@ -1043,8 +1043,8 @@ def evaluate(cases, obs, model_ok, out, tag, perturb=None):
             index.append(where)
     if skipped[0]:
         out.notes.append("%d rejected steps failed inside staking share arithmetic (outside the model): checked by the oracle only" % skipped[0])
-    out.distribution = {"message_kinds": kinds, "verdicts": verdicts, "sender_classes": sender_cls, "target_object_states": target_cls,
-                        "validate_basic (reported by the driver, not part of the model)": vbs}
+    merge_distribution(out, {"message_kinds": kinds, "verdicts": verdicts, "sender_classes": sender_cls, "target_object_states": target_cls,
+                             "validate_basic (reported by the driver, not part of the model)": vbs})
     if not model_ok:
         out.model_ran = False
         return
@@ -1061,6 +1061,14 @@ def evaluate(cases, obs, model_ok, out, tag, perturb=None):
             out.mismatches.append({"what": "C20 model and implementation disagree on %s from %s: implementation %s" % (
                 c["ops"][oi]["k"], NAMES[c["ops"][oi]["s"]], "accepted" if st["r"] == 0 else "rejected (class %d: %s)" % (st["ec"], st.get("err", ""))),
                 "case": {"setup": c["setup"], "ops": history_of(c, oi) + [dict(c["ops"][oi], c=False)]}})
+
+
+def merge_distribution(out, d):
+    """histograms add up over the batches of a run"""
+    for k, h in d.items():
+        acc = out.distribution.setdefault(k, {})
+        for kk, v in h.items():
+            acc[kk] = acc.get(kk, 0) + v
 
 
 def target_class(o, pre):
@@ -1135,22 +1143,35 @@ def correspond(tier, seed, model_ok):
     out = Outcome()
     r = Rng(seed)
     n = 20 if tier == "quick" else 250
-    cases = common.load_corpus(PROP) + plan(r, tier, n)
-    obs = drive(cases)
-    evaluate(cases, obs, model_ok, out, "q")
-    if model_ok:
-        selftest(cases, obs, out)
-    nprobe = sum(1 for c in cases for o in c["ops"] if not o.get("c") and o["k"] in MODELLED)
-    out.rule = ("case = a fresh chain (6 users, 6 module accounts, 4 pools, 2 validators), a random history of 14-30 accepted operations "
-                "(positions created / transferred / partly withdrawn / re-created, locks incl. superfluid delegated / undelegating / unlocking / "
-                "split / matured, factory denoms incl. admin changed and renounced), then at 1-2 checkpoints the message x sender matrix "
-                "(%d probes in this run) built from the chain's own snapshot; every step = one message through its module's MsgServer under the "
-                "atomic wrapper. evaluations = steps; non-trivial = distinct (history, sender, message) that the chain accepted, i.e. that ran "
-                "through the guards into the effect" % nprobe)
-    out.samples = [{"setup": c["setup"], "history": [o for o in c["ops"] if o.get("c")][:5],
-                    "probes": [o for o in c["ops"] if not o.get("c") and o["k"] in MODELLED][:4]} for c in cases[:3]]
-    out.distribution["cases"] = len(cases)
-    out.distribution["history_lengths"] = sorted(len([o for o in c["ops"] if o.get("c")]) for c in cases)
+    batch = 25          # histories per batch: bounds the memory of a thorough run
+    done = 0
+    nprobe = 0
+    lengths = []
+    samples = []
+    first = True
+    while done < n:
+        k = min(batch, n - done)
+        cases = (common.load_corpus(PROP) if first else []) + plan(r.fork(("batch", done)), tier, k)
+        obs = drive(cases)
+        evaluate(cases, obs, model_ok, out, "q%d" % done)
+        if model_ok and first:
+            selftest(cases, obs, out)
+        nprobe += sum(1 for c in cases for o in c["ops"] if not o.get("c") and o["k"] in MODELLED)
+        lengths += [len([o for o in c["ops"] if o.get("c")]) for c in cases]
+        if first:
+            samples = [{"setup": c["setup"], "history": [o for o in c["ops"] if o.get("c")][:5],
+                        "probes": [o for o in c["ops"] if not o.get("c") and o["k"] in MODELLED][:4]} for c in cases[1:4]]
+        first = False
+        done += k
+    out.rule = ("case = a fresh chain (6 users, 7 module accounts, 4 pools, 2 validators, optionally a before-send hook contract), a random history "
+                "of 16-32 accepted operations (positions created / transferred / partly withdrawn / re-created, locks incl. superfluid delegated / "
+                "undelegating / unlocking / split / matured, factory denoms incl. admin changed, renounced, hooked, coins locked), then at 1-2 "
+                "checkpoints the message x sender matrix (%d probes in this run) built from the chain's own snapshot; plus the curated corpus case. "
+                "Every step = one message through its module's MsgServer under the atomic wrapper. evaluations = steps; non-trivial = distinct "
+                "(history, sender, message) that the chain accepted, i.e. that ran through the guards into the effect" % nprobe)
+    out.samples = samples
+    out.distribution["cases"] = {"histories": len(lengths)}
+    out.distribution["history_lengths"] = {str(k): lengths.count(k) for k in sorted(set(lengths))}
     return out
 
 
